@@ -312,10 +312,7 @@ def rule_support(ctx: Ctx):
     for p in ctx.paths(ei, inline=None, exc_edges="none"):
         rep.check(p.kind == "return" and xshow(p.value, p.events) == "iter(self.items)", "C02.keys", ei.loc(), "iterating an executor yields every wrapper it holds",
                   ei.key, f"return {xshow(p.value, p.events)}")
-    eq = ctx.fn("CallbackSpec.__eq__")
-    src = " ".join(norm_stmt(n) for n in own_nodes(eq.node) if isinstance(n, ast.Return))
-    rep.check("self.func == other.func" in src and "self.group == other.group" in src and " or " not in src, "C02.once", eq.loc(),
-              "two specs are the same only if callable and group agree (a name used in two groups runs in both)", eq.key, src)
+    rule_spec_identity(ctx)
     inst = ctx.p.cls("InstanceState")
     want = {"name": "self._state().name", "value": "self._state().value", "transitions": "self._state().transitions", "enter": "self._state().enter",
             "exit": "self._state().exit", "initial": "self._state()._initial", "final": "self._state()._final"}
@@ -409,11 +406,12 @@ def rule_scope(ctx: Ctx):
             if isinstance(name, ast.JoinedStr):
                 fvs = [v.value for v in name.values if isinstance(v, ast.FormattedValue)]
                 elems = [show(v) for v in fvs]
-                per_event = [v for v in fvs if isinstance(v, ast.Subscript) and show(v.value) == "self._events"]
+                per_event = [v for v in fvs if isinstance(v, ast.Subscript) and xshow(v.value, p.events) in
+                             ("self._events", "list(self._events)", "tuple(self._events)", "self.events", "list(self.events)", "tuple(self.events)")]
                 if not per_event:
                     rep.unrecognised("C02.scope", e.loc(), f"formatted convention name {show(name)} not built from an event of self._events")
                 n_scoped += 1
-                want = f"{show(per_event[0])}.is_same_event"
+                want = f"{xshow(per_event[0], p.events)}.is_same_event"
                 got = xshow(cond, p.events) if cond is not None else None
                 rep.check(got == want, "C02.scope", e.loc(),
                           "event-named convention callback is scoped to its own event (cond=<event>.is_same_event)",
@@ -590,4 +588,56 @@ def rule_once(ctx: Ctx, rule: str = "C02.once"):
     rep.floor(rule, "wrapper insertions", n, 1)
 
 
-RULES = [rule_order, rule_view, rule_plumbing, rule_keys, rule_support, rule_scope, rule_initial, rule_once, rule_providers]
+def rule_spec_identity(ctx: Ctx, rule: str = "C02.once"):
+    """Spec equality decides what `_add` drops as duplicate: it must compare the callable itself (`func`) and the group.
+    Read as a boolean function over the comparisons it makes: true only when func AND group agree."""
+    from .. import boolfn
+
+    rep = ctx.rep
+    eq = ctx.fn("CallbackSpec.__eq__")
+    other = eq.params[1] if len(eq.params) > 1 else "other"
+    n = 0
+    for p in ctx.paths(eq, inline=None, exc_edges="none"):
+        if p.kind != "return":
+            continue
+        n += 1
+        v = expand(p.value, p.events)
+        seen_atoms = set()
+
+        def atom(x):
+            if isinstance(x, ast.Compare) and len(x.ops) == 1 and isinstance(x.ops[0], ast.Eq):
+                l, r = show(x.left), show(x.comparators[0])
+                for a in ("func", "group", "expected_value", "attr_name", "reference", "is_convention", "priority", "cond"):
+                    if {l, r} == {f"self.{a}", f"{other}.{a}"}:
+                        seen_atoms.add(a)
+                        return a.upper()
+            if isinstance(x, ast.Call) and show(x.func) == "isinstance":
+                return "ISINST"
+            return None
+
+        names = ["FUNC", "GROUP", "EXPECTED_VALUE", "ATTR_NAME", "REFERENCE", "IS_CONVENTION", "PRIORITY", "COND", "ISINST"]
+        dom = {a: [True, False] for a in names}
+        try:
+            got = boolfn.table(v, atom, dom)
+        except boolfn.Unrecognised as u:
+            if isinstance(v, ast.Constant) or show(v) == "NotImplemented":
+                continue
+            rep.unrecognised(rule, eq.loc(), f"spec equality uses `{u}`")
+            continue
+        idx = {a: i for i, a in enumerate(sorted(dom))}
+        implies = all((not val) or (k_[idx["FUNC"]] and k_[idx["GROUP"]]) for k_, val in got.items())
+        rep.check(implies and "func" in seen_atoms and "group" in seen_atoms, rule, eq.loc(),
+                  "two specs are the same only if callable and group agree (a name used in two groups runs in both; two callables "
+                  "with one name are two callbacks)", eq.key, f"return {show(v)}")
+    rep.floor(rule, "returning paths of CallbackSpec.__eq__", n, 1)
+
+
+def rule_awaited_once(ctx: Ctx):
+    """C02.once (async engine): a callback whose result is awaitable has run only once that result was awaited, whatever
+    kind of callable produced it (coroutine function, decorated wrapper, lambda returning a coroutine)."""
+    from . import c05
+
+    c05.rule_wrapper(ctx, rule="C02.once")
+
+
+RULES = [rule_order, rule_view, rule_plumbing, rule_keys, rule_support, rule_scope, rule_initial, rule_once, rule_providers, rule_awaited_once]
